@@ -121,8 +121,16 @@ inline NFA nfa_union(const NFA& a, const NFA& b)
 
 inline NFA nfa_product(const NFA& a, const NFA& b)
 {
-	const int mb = b.max_state() + 1;
-	auto id = [mb](int p, int q) { return p * (mb + 1) + q; };
+	// product states are numbered densely in order of first use (operand numbers may be large / sparse)
+	std::map<std::pair<int,int>,int> ids;
+	auto id = [&ids](int p, int q) {
+		auto k = std::make_pair(p, q);
+		auto it = ids.find(k);
+		if (it != ids.end()) return it->second;
+		int n = static_cast<int>(ids.size());
+		ids[k] = n;
+		return n;
+	};
 	NFA r;
 	for (int p : a.starts) for (int q : b.starts) r.starts.insert(id(p, q));
 	for (int p : a.finals) for (int q : b.finals) r.finals.insert(id(p, q));
@@ -130,6 +138,21 @@ inline NFA nfa_product(const NFA& a, const NFA& b)
 		if (std::get<1>(ea) != std::get<1>(eb)) continue;
 		r.edges.insert(std::make_tuple(id(std::get<0>(ea), std::get<0>(eb)), std::get<1>(ea), id(std::get<2>(ea), std::get<2>(eb))));
 	}
+	return r;
+}
+
+// same language, only the part that matters (keeps models of long chains small)
+inline NFA nfa_trimmed(const NFA& a)
+{
+	std::set<int> f = a.forward_reachable(), b = a.backward_reachable();
+	NFA r;
+	std::map<int,int> ids;
+	auto id = [&ids](int q) { auto it = ids.find(q); if (it != ids.end()) return it->second; int n = static_cast<int>(ids.size()); ids[q] = n; return n; };
+	for (int q : a.starts) if (f.count(q) && b.count(q)) r.starts.insert(id(q));
+	for (int q : a.finals) if (f.count(q) && b.count(q)) r.finals.insert(id(q));
+	for (auto& e : a.edges)
+		if (f.count(std::get<0>(e)) && b.count(std::get<0>(e)) && f.count(std::get<2>(e)) && b.count(std::get<2>(e)))
+			r.edges.insert(std::make_tuple(id(std::get<0>(e)), std::get<1>(e), id(std::get<2>(e))));
 	return r;
 }
 
